@@ -56,7 +56,11 @@ Inductive label :=
 | LStart (bi : binfo)                              (* a backend hands a new session to runProtocol *)
 | LMsg (i : nat) (m : amsg)                        (* session i's loop takes one message *)
 | LFinish (i : nat)                                (* session i performs its pending bookkeeping step *)
-| LHangup (i : nat).                               (* session i's context is done *)
+| LHangup (i : nat).                               (* session i has ended, whatever the cause: Recv returned
+                                                      io.EOF or another error, a Send failed, the backend's
+                                                      context was cancelled, the idle monitor cancelled it —
+                                                      each of them cancels ci.Context and the loop takes its
+                                                      Done arm: removeConnection in this one step *)
 
 Definition sys_init (self : bytes) : sys :=
   {| y_self := self; y_conns := []; y_selfrow := []; y_sess := [] |}.
@@ -146,6 +150,9 @@ Definition holds (p : phase) : option (bytes * dy) :=
   | PAdmitted id c | PBooked id c | PEst id c _ => Some (id, c)
   | _ => None
   end.
+
+(* a session that has ended (its loop has taken the Done arm or returned) *)
+Definition ended (p : phase) : bool := match p with PLeaving _ _ | PClosed _ => true | _ => false end.
 
 (* sessions with a pending bookkeeping step *)
 Definition pending (p : phase) : bool :=
